@@ -292,6 +292,32 @@ def r17d(ctx):
         raise AnalysisError("R17d: strip loops not found")
 
 
+def r17j(ctx):
+    """A cell is part of a span when any of the marks of a span is on it.
+
+    set_span refuses to overlap an existing span and the strips never delete a spanned cell; both ask `Cell.is_spanned()`.  A span head
+    carries `table:number-columns-spanned` and/or `table:number-rows-spanned` (a vertical merge loaded from a file may carry the second
+    only), a covered cell is known by its tag.  Rule: is_spanned tests the tag of covered cells and every span attribute that set_span
+    writes and del_span removes; each test alone makes the cell spanned.
+    """
+    repo = ctx.repo
+    ctx.rule("R17j", "Cell.is_spanned tests the covered tag and every span attribute set_span writes", floor=1)
+    f = repo.func("Cell.is_spanned")
+    ss = repo.func("Table.set_span")
+    written = {repo.fold(c.args[0], ss.module) for c in walk_no_nested(ss.node) if isinstance(c, ast.Call) and call_name(c) == "set_attribute" and c.args}
+    written = {w for w in written if isinstance(w, str) and w.endswith("-spanned")}
+    read = {repo.fold(c.args[0], f.module) for c in walk_no_nested(f.node) if isinstance(c, ast.Call) and call_name(c).startswith("get_attribute") and c.args}
+    tags = {x.value for x in walk_no_nested(f.node) if isinstance(x, ast.Constant) and isinstance(x.value, str) and "covered" in x.value}
+    conj = [b for b in walk_no_nested(f.node) if isinstance(b, ast.BoolOp) and isinstance(b.op, ast.And)]
+    ok = bool(written) and written <= read and bool(tags) and not conj
+    ctx.instance("R17j", f"{f.file}:{f.ident}", f"reads {sorted(x for x in read if isinstance(x, str))} and the covered tag; set_span writes {sorted(written)}", ok=ok, nontrivial=True, line=f.node.lineno)
+    if not ok:
+        lack = sorted(written - read)
+        ctx.report("R17j", f, f.node, "Cell.is_spanned " + (f"does not test {lack}" if lack else "combines the marks with `and`" if conj else "does not test the covered tag"),
+                   f"Cell.is_spanned does not recognise a cell by each of the marks of a span ({'missing ' + str(lack) if lack else 'marks combined with and' if conj else 'covered tag not tested'}): "
+                   f"a span head that carries only that mark is taken for a free cell — set_span overlaps it and the strips delete it, leaving orphan covered cells")
+
+
 def r17i(ctx):
     """The width a row can be cut to counts every cell that holds something.
 
@@ -402,6 +428,19 @@ def r17f(ctx):
     ctx.instance("R17f", f"{ex.file}:{ex.ident}", "one writerow per table row of iter_values(); None written as ''", ok=ok, nontrivial=True)
     if not ok:
         ctx.report("R17f", ex, ex.node, "export loop", "to_csv no longer writes one CSV row per table row with None as the empty string")
+    # the exporter writes every value of every row: the only operations on the list handed to writerow() are its creation and append(value)
+    wr = [c for c in ast.walk(ex.node) if isinstance(c, ast.Call) and call_name(c) == "writerow" and c.args and isinstance(c.args[0], ast.Name)]
+    for w in wr:
+        ln = w.args[0].id
+        bad_ops = [c for c in ast.walk(ex.node) if isinstance(c, ast.Call) and isinstance(c.func, ast.Attribute) and isinstance(c.func.value, ast.Name) and c.func.value.id == ln
+                   and c.func.attr in ("pop", "remove", "clear", "__delitem__")]
+        bad_ops += [d for d in ast.walk(ex.node) if isinstance(d, ast.Delete) and any(isinstance(x, ast.Name) and x.id == ln for t in d.targets for x in ast.walk(t))]
+        bad_ops += [a for a in ast.walk(ex.node) if isinstance(a, ast.Assign) and any(isinstance(t, ast.Name) and t.id == ln for t in a.targets) and not isinstance(a.value, (ast.List, ast.ListComp))]
+        ctx.instance("R17f", f"{ex.file}:{ex.ident}", f"every value appended to `{ln}` is written (nothing popped or cut)", ok=not bad_ops, nontrivial=True, line=w.lineno)
+        for b in bad_ops[:1]:
+            ctx.report("R17f", ex, b, f"{norm(b, 50)} before writerow({ln})",
+                       f"to_csv removes entries from the row it is about to write (`{norm(b, 40)}`): a test of truth on typed values also removes 0, 0.0, False and empty durations, "
+                       f"so a row that ends in one of them comes back shorter — the value is None after the round trip")
     ok = has(im.node, "csv.reader(D_, X_)") and (has(im.node, "T_.append_row(R_, clone=False)") or has(im.node, "T_.append_row(R_)"))
     ctx.instance("R17f", f"{im.file}:{im.ident}", "one table row per CSV line, appended in order", ok=ok, nontrivial=True)
     if not ok:
@@ -542,6 +581,7 @@ def run(ctx):
     r17g(ctx)
     r17h(ctx)
     r17i(ctx)
+    r17j(ctx)
     # span and area operations write back through Table.set_cells / set_row: a row copy that still carries a repeat count is written N times
     # (the one-row-only obligation R01a of C01 is a necessary condition here too)
     from .c01 import r01a
@@ -557,6 +597,10 @@ from ..selftest import Seed, unparse_seed  # noqa: E402
 _T = "src/odfdo/table.py"
 _R = "src/odfdo/row.py"
 SEEDS = [
+    Seed("is_spanned looks at the column span only", "fault", "src/odfdo/cell.py",
+         '        if self.get_attribute("table:number-rows-spanned") is not None:  # noqa: SIM103\n            return True\n        return False', '        return False', "R17j"),
+    Seed("to_csv drops trailing falsy values of a row", "fault", _T, "                    line.append(value)\n                csv_writer.writerow(line)  # type: ignore",
+         "                    line.append(value)\n                while line and not line[-1]:\n                    line.pop()\n                csv_writer.writerow(line)  # type: ignore", "R17f", count=2),
     Seed("minimized_width always counts the last run once", "fault", _R,
          "            cell = self.last_cell()\n            if cell is not None and cell.is_empty(aggressive=True):\n                repeated[-1] = 1\n            min_width = sum(repeated)",
          "            min_width = sum(repeated[:-1]) + 1", "R17i"),
